@@ -188,8 +188,11 @@ func (n *ResponderInterceptor) resendPackets(nack *rtcp.TransportLayerNack) {
 			stream.rtpBufferMutex.Unlock()
 
 			if p != nil {
+				// Every retransmission gets its own header: interceptors further down the
+				// chain (e.g. TWCC) modify it, and NACKs are served concurrently.
+				header := p.Header().Clone()
 				// send without holding rtpBufferMutex
-				if _, err := stream.rtpWriter.Write(p.Header(), p.Payload(), interceptor.Attributes{}); err != nil {
+				if _, err := stream.rtpWriter.Write(&header, p.Payload(), interceptor.Attributes{}); err != nil {
 					n.log.Warnf("failed resending nacked packet: %+v", err)
 				}
 				p.Release()
